@@ -431,11 +431,59 @@ def _pol_collide(ctx):
     return np.asarray(act, np.int32)
 
 
+def _blockadable(adj, pos, ntc):
+    """Agents whose current node has only utility-type neighbours (nodes no agent has to connect)."""
+    owned = {int(v) for row in ntc for v in row}
+    out = []
+    for i, p in enumerate(pos):
+        nb = [int(v) for v in np.flatnonzero(adj[int(p)]) if int(v) != int(p)]
+        if nb and all(v not in owned for v in nb):
+            out.append(i)
+    return out
+
+
+def key_score(P, S0):
+    """Workload hint: reset instances in which some agent can be boxed in at its start node (dead-lock workloads)."""
+    return float(len(_blockadable(_adj(S0), np.asarray(S0["positions"]).astype(int), np.asarray(S0["nodes_to_connect"]).astype(int))))
+
+
+def _pol_blockade(ctx):
+    """Dead-lock workload (in-spec, not mask-respecting): one agent whose start node has only utility neighbours never moves
+    (it keeps choosing its own node), the others first walk over all of those neighbours - which makes them forbidden for the
+    victim - and then connect their own nodes. The victim ends up unfinished with an empty mask row."""
+    st = _np_state(ctx)
+    n, A = len(st["types"]), len(st["pos"])
+    if "victim" not in ctx:
+        cand = _blockadable(st["adj"], st["pos"], st["ntc"]) if ctx["t"] == 0 else []
+        ctx["victim"] = cand[0] if cand else None
+    vi = ctx["victim"]
+    if vi is None:
+        return _pol_collide(ctx)
+    ctx["legal_only"] = False
+    vis = _visited_from(st)
+    p = int(st["pos"][vi])
+    ring = {int(v) for v in np.flatnonzero(st["adj"][p]) if int(v) != p}
+    blocked_by_others = {u for j in range(A) if j != vi for u in vis[j]}
+    todo_ring = ring - blocked_by_others
+    base = _pol_complete(ctx)
+    act = [int(x) for x in base]
+    act[vi] = p  # stays (an illegal choice unless the node has a self-loop)
+    for j in range(A):
+        if j == vi or not st["mask"][j].any():
+            continue
+        if todo_ring:
+            others_util = {u for k in range(A) if k != j for u in vis[k] if st["types"][u] == UTILITY}
+            nxt = _bfs_next(st["adj"], int(st["pos"][j]), todo_ring, set(range(n)) - others_util)
+            if nxt is not None and st["mask"][j][nxt]:
+                act[j] = int(nxt)
+    return np.asarray(act, np.int32)
+
+
 POLICY_WEIGHT = {"collide": 5}  # ties between three or more agents are rare events: more episodes of the hostile workload
 
 
 def policies(P):
-    return {"complete": _pol_complete, "collide": _pol_collide}
+    return {"complete": _pol_complete, "collide": _pol_collide, "frontier": _pol_blockade}
 
 
 def qualify(P, clause, ev):
